@@ -55,12 +55,12 @@ type KillCase struct {
 	// ProjDir names the directory holding the spokfile ("" = proj)
 	ProjDir string `json:"proj_dir,omitempty"`
 	// Invoke: how spok is pointed at the project (sandbox.Box.Invoke)
-	Invoke string            `json:"invoke,omitempty"`
+	Invoke string `json:"invoke,omitempty"`
 	// Outputs: "files" = standard output and error are regular files (sandbox.Box.FileOutputs)
-	Outputs string `json:"outputs,omitempty"`
-	Tasks  []KTask           `json:"tasks"`
-	Init   map[string]string `json:"init"`
-	Steps  []KStep           `json:"steps"`
+	Outputs string            `json:"outputs,omitempty"`
+	Tasks   []KTask           `json:"tasks"`
+	Init    map[string]string `json:"init"`
+	Steps   []KStep           `json:"steps"`
 	// Cpus: every run of the case is pinned to these CPUs (taskset); "" = all
 	Cpus string `json:"cpus,omitempty"`
 }
